@@ -17,7 +17,7 @@ except Exception:  # pragma: no cover
 
 META = {
     "technique": "Lean 4 algebra over the models of _propagate_electronic (RK4, interaction picture), _attempt_hop, _rescale_velocity_along_nac and the trivial-crossing relabel (norm conservation of the flow for any antisymmetric coupling, exact RK4 norm defect, probability bounds, energy conservation of the rescale with the smaller root, permutation criterion, row-wise isolation) + adversarial function-level correspondence and probes on the real routines",
-    "level_text": "Theorems: for any antisymmetric coupling, energies and phases the modelled right-hand side conserves the total population (sum x dx + y dy = 0); for two states with constant coupling one RK4 step multiplies the norm^2 by exactly 1 - z^6/72 + z^8/576; hop probabilities lie in [0,1], the active entry is 0 and the row sum is <= 1; an accepted hop conserves kinetic + potential energy exactly, changes velocities only along d_A/m_A and uses the root of smaller magnitude; a frustrated hop returns the velocities unchanged; the scatter relabel is a permutation iff the index vector is a bijection (3-cycle witness: known finding F15); every modelled operation acts row by row except the batch-global sub-step count (isolation up to nsub). Tied to the code by comparing the three real routines with the compiled Float model on synthetic tensors (2-8 states, spikes, gaps 1e-4..5 eV, v.d = 0, hop energy of both signs) and by probing norm drift, energy conservation and batch isolation on the real routines. Round 2 (C17b): the batch bookkeeping of _detect_crossings (subset-of-subset index composition, three early exits, hold-off resets) is modelled executable and proved to act per trajectory (crossing_isolation), rows are involutions iff the assignment is; tied to the code by comparing the real routine with the compiled model on random batches with hold-off histories.",
+    "level_text": "Theorems: for any antisymmetric coupling, energies and phases the modelled right-hand side conserves the total population (sum x dx + y dy = 0); for two states with constant coupling one RK4 step multiplies the norm^2 by exactly 1 - z^6/72 + z^8/576; hop probabilities lie in [0,1], the active entry is 0 and the row sum is <= 1; an accepted hop conserves kinetic + potential energy exactly, changes velocities only along d_A/m_A and uses the root of smaller magnitude; a frustrated hop returns the velocities unchanged; the scatter relabel is a permutation iff the index vector is a bijection (3-cycle witness: known finding F15); every modelled operation acts row by row except the batch-global sub-step count (isolation up to nsub). Tied to the code by comparing the three real routines with the compiled Float model on synthetic tensors (2-8 states, spikes, gaps 1e-4..5 eV, v.d = 0, hop energy of both signs) and by probing norm drift, energy conservation and batch isolation on the real routines. Round 2 (C17b): the batch bookkeeping of _detect_crossings (subset-of-subset index composition, three early exits, hold-off resets) is modelled executable and proved to act per trajectory (crossing_isolation), rows are involutions iff the assignment is; tied to the code by comparing the real routine with the compiled model on random batches with hold-off histories. Translator tie: the scalar part of _rescale_velocity_along_nac (rejection tests, discriminant, root choice) and its velocity update, translated from the source, are the model's rescaleAlpha with the live sign rule and applyAlpha (ScalarTie).",
     "level_note": "Trusted: Lean kernel; harness (light-weight SurfaceHoppingDynamics objects as in the repository's own tests). Partial: the N-state RK4 norm defect is validated (order estimate), not proved; known finding F15 (3-cycle relabel duplicates an amplitude); F16 (batch-global nsub) is a documented coupling below the integrator's local error.",
     "design_ref": "DESIGN.md section 5 C17",
 }
